@@ -1330,3 +1330,40 @@ Proof.
     unfold tb_act. rewrite Hph. apply Qeq_bool_iff in Ed. rewrite Ed.
     destruct (sq_get_enabled _ fifo_pop _ Pg) as [q' Hq']. unfold tb_forward. cbn [tq]. rewrite Hq'. eauto.
 Qed.
+
+(* ---- departure = debit + 8*size/peak ---- *)
+Theorem tb_departure_instant c t0 acts s tr :
+  0 < rate c -> tb_run c (tb0 true c t0) acts = Some (s, tr) ->
+  forall k t p, nth_error (fwds tr) k = Some (t, p) ->
+    exists d, nth_error (debits tr) k = Some (d, p) /\
+      (peak_on c = None -> t == d) /\ (forall pk, peak_on c = Some pk -> t == d + spacing pk (sz p)).
+Proof.
+  intros Hr Hrun k t p Hk. destruct (tb_spec _ _ _ _ _ Hr Hrun) as (R & HC & _ & HM).
+  destruct (matches_fwds _ _ _ HM) as (R1 & R2 & E1 & HF).
+  destruct (matches_debits _ _ _ HM) as (D1 & D2 & E2 & HD).
+  destruct (tpe_nth _ _ HF _ _ _ Hk) as (T & Hk' & Et).
+  destruct (sv_dep_nth _ _ _ _ Hk') as (o & Ho & <- & <-).
+  assert (HoR : nth_error R k = Some o) by (rewrite E1; apply nth_error_app_l; exact Ho).
+  assert (HoD : nth_error D1 k = Some o).
+  { assert (Hlen : (length R1 <= length D1)%nat).
+    { assert (LD : forall l X, tpe l (sv_debit X) -> length l = length X).
+      { intros l X H. rewrite (tpe_length _ _ H). unfold sv_debit. apply map_length. }
+      assert (LF : forall l X, tpe l (sv_dep X) -> length l = length X).
+      { intros l X H. rewrite (tpe_length _ _ H). unfold sv_dep. apply map_length. }
+      pose proof (LF _ _ HF) as L1. pose proof (LD _ _ HD) as L2.
+      destruct HM as [_ HM]. destruct (phase s) as [|q dl|q dl].
+      - destruct HM as [M1 M2]. pose proof (LD _ _ M1) as L3. pose proof (LF _ _ M2) as L4. lia.
+      - destruct HM as (R' & o' & _ & _ & _ & _ & M1 & M2).
+        pose proof (LD _ _ M1) as L3. pose proof (LF _ _ M2) as L4. lia.
+      - destruct HM as (R' & o' & ER & _ & _ & _ & M1 & M2).
+        pose proof (LD _ _ M1) as L3. pose proof (LF _ _ M2) as L4. rewrite ER, app_length in L3. cbn in L3. lia. }
+    assert (Hk1 : (k < length R1)%nat) by (apply nth_error_Some; congruence).
+    rewrite E2 in HoR. rewrite nth_error_app1 in HoR by lia. exact HoR. }
+  destruct (tpe_nth_r _ _ HD k (v_debit o) (v_pkt o)) as (d & Hd & Ed).
+  { unfold sv_debit. rewrite nth_error_map, HoD. reflexivity. }
+  exists d. split; [exact Hd|].
+  destruct (chain_nth_step _ _ _ _ _ _ _ HC HoR) as (L' & U' & F' & (K1 & K2 & K3 & K4 & K5) & _).
+  unfold gap, vsize in K5. split.
+  - intros E. rewrite E in K5. lra.
+  - intros pk E. rewrite E in K5. lra.
+Qed.
